@@ -40,6 +40,10 @@ func runC11(c *core.Ctx) {
 	ruleErrorFlow(c, newDecoderSet(c), "C08.error-flow", func(fn *ssa.Function) bool {
 		return strings.HasSuffix(fn.Pkg.Pkg.Path(), "/bus/net") || strings.HasSuffix(fn.Pkg.Pkg.Path(), core.WitnessDirName)
 	})
+	// … and the retry loop under it does not swallow a failure that comes together with
+	// data (rule shared with C01/C08)
+	c.Doc("C08.readn", "ReadN: accumulates, nil only when complete, error only when short or not EOF, no further Read after an error — rule shared with C08", 4)
+	ruleRetryLoop(c, "C08.readn", "ReadN", "Read")
 	c.Doc("C11.shutdown", "closeWith closes the stream (before taking the handler mutex) and every registered handler with the error", 4)
 	ruleShutdown(c, a)
 	c.Doc("C11.handler-before-send", "reply handler registered before Send, removed if Send fails", 2)
